@@ -495,6 +495,8 @@ class DataSim(object):
             self.env.set_zone(op["zone"])
         elif op["op"] == "clock":
             self.env.jump_clock(op["delta"])
+        elif op["op"] == "mpl_epoch":
+            self.env.set_mpl_epoch(op["epoch"])
         elif op["op"] == "rng":
             np.random.seed(op["seed"] % (2 ** 32))
             if op.get("draws"):
@@ -523,7 +525,7 @@ class DataSim(object):
     def step(self, step, op):
         kind = op["op"]
         rec = {"i": step, "op": op}
-        if kind in ("tz", "clock", "rng"):
+        if kind in ("tz", "clock", "rng", "mpl_epoch"):
             self.apply_env(op)
             self.emit(rec)
             for o in self.oracles:
